@@ -312,6 +312,63 @@ def replay_builtin(bi, depmap):
     return False, 'ok'
 
 
+# ---------------------------------------------------------------- waiting for a reference of another file
+# grammar RREL '+m:~active.types': the lookup follows a root-level reference of the own model and of every
+# directly imported model; while one of those is unresolved the answer is Postponed, and since every file's
+# `active` reference resolves locally an order exists: the load succeeds and each use denotes the type of
+# that name in the active collection of the first model among [own model, imports in import order] that has one
+X_GRAMMAR = """
+Model: imports*=Import colls*=Coll ('active' '=' active=[Coll])? uses*=Use;
+Import: 'import' importURI=STRING;
+Use: 'use' name=ID '=' type=[Type:ID|+m:~active.types];
+Coll: 'coll' name=ID '{' types*=Type '}';
+Type: 'type' name=ID;
+"""
+X_CASES = [
+    {'main.m': 'import "lib.m" use a = Int use b = Dbl',
+     'lib.m': 'coll L { type Int type Dbl } coll O { type Foo } active = L use c = Int'},
+    {'main.m': 'import "l1.m" import "l2.m" coll M { type Own type Int } use a = Int use b = Str',
+     'l1.m': 'coll A { type Int type Str } active = A',
+     'l2.m': 'import "l1.m" coll B { type Str type Flt } active = B use e = Flt use f = Str'},
+]
+
+
+def cross_file_scenario(xi):
+    import shutil
+    from textx import metamodel_from_str
+    files = X_CASES[xi]
+    tmp = tempfile.mkdtemp(prefix='c09x_')
+    problems = []
+    try:
+        for fn, text in files.items():
+            with open(os.path.join(tmp, fn), 'w') as f:
+                f.write(text)
+        mm = metamodel_from_str(X_GRAMMAR)
+        try:
+            main = mm.model_from_file(os.path.join(tmp, 'main.m'))
+        except Exception as e:  # noqa
+            return ['files %s: the load fails although every `active` reference resolves locally: %s: %s' % (
+                sorted(files), type(e).__name__, str(e).replace(tmp, '')[:100])]
+        models = {os.path.basename(m._tx_filename): m for m in main._tx_model_repository.all_models}
+        models['main.m'] = main
+        for fn, m in models.items():
+            scope = [m] + [models[i] for i in re.findall(r'import "([^"]+)"', files[fn])]
+            for u in m.uses:
+                want = None
+                for sm in scope:
+                    if sm.active is not None:
+                        want = next((t for t in sm.active.types if t.name == re.search(
+                            r'use %s = (\w+)' % u.name, files[fn]).group(1)), None)
+                        break
+                if u.type is not want:
+                    problems.append('%s: use %s resolves to %r of %r, expected the one of %r' % (
+                        fn, u.name, getattr(u.type, 'name', None), getattr(getattr(u.type, 'parent', None), 'name', None),
+                        getattr(getattr(want, 'parent', None), 'name', None)))
+        return problems
+    finally:
+        shutil.rmtree(tmp, ignore_errors=True)
+
+
 def exactly(n, terms):
     import itertools
     if n > len(terms):
@@ -465,6 +522,11 @@ def main():
             else:
                 chk.cov['model_mismatches'] += 1
         chk.sample({'case': r['case'], 'paths': r['paths'], 'loads_ok': r['ok'], 'loads_failed_as_expected': r['okfail']})
+    for xi in range(len(X_CASES)):
+        for pr in cross_file_scenario(xi)[:2]:
+            chk.violation(pr, {'cross_file': xi})
+        paths += 1
+    chk.cov['bounds']['cross_file'] = "grammar RREL '+m:~active.types' over 2 and 3 files (concrete loads)"
     chk.cov['paths_explored'] = paths
     chk.cov['evaluations'] = max(chk.cov['evaluations'], paths)
     chk.cov['distinct_nontrivial'] = paths
@@ -477,6 +539,9 @@ def main():
 
 
 def replay(data):
+    if 'cross_file' in data:
+        pr = cross_file_scenario(data['cross_file'])
+        return bool(pr), pr[:2]
     if isinstance(data['case'], str):
         return replay_builtin(int(data['case'][1:]), data['dep'])
     return replay_dep(data['case'], data['dep'], data.get('via_api', False))
